@@ -23,6 +23,7 @@ func checkC19(p *Prog, c *Check) {
 	c19Det(p, c)
 	c19AdvanceOnlyReleased(p, c)
 	keysBelongToTrigger(p, c, "C03-R10")
+	queueLimitFromMinGas(p, c, "C19-R9")
 }
 
 func c19Identities(p *Prog, c *Check) {
@@ -472,6 +473,23 @@ func c19Trigger(p *Prog, c *Check) {
 		ParsePat("getTxPointer(_, _, $e, _)#0").Match(flds["TxPointer"], b) &&
 		ParsePat("computeIdentitiesHash(getDecryptionIdentityPreimages(_, _, $slot, $ks.KeyperConfigIndex, getTxPointer(_, _, $e, _)#0)#0)").Match(flds["IdentitiesHash"], b) &&
 		ParsePat("$e").Match(flds["Eon"], b)
+	// one request, one eon: the index the pointer is read (and the trigger stored) under and the index
+	// the queue is read under must be the same value, or known equal where the trigger is stored
+	if ok && b["e"] != nil {
+		ks := ParsePat("$ks.KeyperConfigIndex")
+		same := ks.Match(b["e"], copyBinds(b))
+		if !same {
+			for _, a := range fi.FactsAt(set) {
+				if a.Op != "==" {
+					continue
+				}
+				if (stripConv(a.L).s == stripConv(b["e"]).s && ks.Match(a.R, copyBinds(b))) || (stripConv(a.R).s == stripConv(b["e"]).s && ks.Match(a.L, copyBinds(b))) {
+					same = true
+				}
+			}
+		}
+		c.Result(same, rule, "triggerDecryption:one-index", p.siteOf(set), shortFn(fn), "eon index of the pointer vs. of the queue", "the tx pointer is read (and the trigger stored) under the keyper-config index of the eon found for the block ("+siteTag.ReplaceAllString(b["e"].s, "")+"), the queue under the index of the keyper set handed in: while a new keyper set is active but its eon has not started, the request takes the pointer of one eon and the queue of another", "one index, or a dominating equality of the two")
+	}
 	c.Result(ok, rule, "triggerDecryption:stored-trigger", p.siteOf(set), shortFn(fn), "SetCurrentDecryptionTrigger params", "the stored current trigger is not (eon, slot, pointer, hash(identities requested for slot/keyper set/pointer))", "consistent (eon, slot, txPointer, identitiesHash)")
 	// the send happens after the store succeeded, with the same identities
 	n := 0
